@@ -285,11 +285,11 @@ MUTANTS += [
     B("c07-optimize-handle-for-incremental", ["C07", "C15"], SV, 'if self._is_optimization_problem and self.optimizer == "optimize":', 'if self._is_optimization_problem:'),
     T("c07-twin-bound-flipped", ["C07"], SV, "                self.append_z3_assertion(variable < current_variable_value)", "                self.append_z3_assertion(current_variable_value > variable)"),
     # ---- C12 ----------------------------------------------------------------------
-    B("c12-block-and", ["C12"], SV, "self.append_z3_assertion(z3.Or(different_assertions))", "self.append_z3_assertion(z3.And(different_assertions))"),
-    B("c12-block-no-end", ["C12"], SV, "            different_assertions.append(t._end != self._model[t._end].as_long())\n", ""),
+    B("c12-block-and", ["C12", "C13"], SV, "self.append_z3_assertion(z3.Or(different_assertions))", "self.append_z3_assertion(z3.And(different_assertions))"),
+    B("c12-block-no-end", ["C12", "C13"], SV, "            different_assertions.append(t._end != self._model[t._end].as_long())\n", ""),
     B("c12-block-cross-variable", ["C12"], SV, "different_assertions.append(t._end != self._model[t._end].as_long())", "different_assertions.append(t._end != self._model[t._start].as_long())"),
     B("c12-block-scheduled-chained", ["C12"], SV, 't._scheduled != (f"{self._model[t._scheduled]}" == "True")', 't._scheduled != f"{self._model[t._scheduled]}" == "True"'),
-    B("c12-block-only-mandatory", ["C12"], SV, "        for t in self.problem.tasks.values():\n            different_assertions.append(t._start !=", "        for t in [x for x in self.problem.tasks.values() if not x.optional]:\n            different_assertions.append(t._start !="),
+    B("c12-block-only-mandatory", ["C12", "C13"], SV, "        for t in self.problem.tasks.values():\n            different_assertions.append(t._start !=", "        for t in [x for x in self.problem.tasks.values() if not x.optional]:\n            different_assertions.append(t._start !="),
     B("c12-block-inside-push", ["C12", "C13"], SV, "        # any of the assertions is meet\n        self.append_z3_assertion(z3.Or(different_assertions))", "        # any of the assertions is meet\n        self._solver.push()\n        self.append_z3_assertion(z3.Or(different_assertions))"),
     B("c12-variable-variant-equal", ["C12"], SV, "        self.append_z3_assertion(variable != current_variable_value)", "        self.append_z3_assertion(variable >= current_variable_value)"),
     B("c12-no-model-guard", ["C12"], SV, '        if self._model is None:\n            raise AssertionError("No current solution. First call the solve() method.")\n        different_assertions = []', '        different_assertions = []'),
@@ -389,7 +389,7 @@ MUTANTS += [
     B("c14-task-number-in-scheduled-rule", ["C14"], TK, "            self._end - self._start == self.duration,\n            self._start >= 0,\n", "            self._end - self._start == self.duration,\n            self._start >= self._task_number - self._task_number,\n"),
     B("c14-solver-reads-global", ["C14"], SV, "        self._is_not_optimization_problem = len(self.problem.objectives) == 0", "        import processscheduler.base\n        self._is_not_optimization_problem = len(processscheduler.base.active_problem.objectives) == 0"),
     B("c14-second-global-writer", ["C14"], TK, "        if processscheduler.base.active_problem is None:\n            raise AssertionError(\"No active problem. First create a SchedulingProblem\")", "        if processscheduler.base.active_problem is None:\n            processscheduler.base.active_problem = None\n            raise AssertionError(\"No active problem. First create a SchedulingProblem\")"),
-    B("c14-single-objective-by-position", ["C14"], SV, "            if self.optimizer == \"incremental\" or self.optimize_priority == \"weight\":\n                self.build_equivalent_weighted_objective()", "            if self.optimizer == \"incremental\" or self.optimize_priority == \"weight\":\n                self._objective = list(self.problem.objectives.values())[0]"),
+    B("c14-single-objective-by-position", ["C14"], SV, "                equivalent_objective, _ = self.build_equivalent_weighted_objective()", "                equivalent_objective, _ = list(self.problem.objectives.values())[0], None\n                self._objective = equivalent_objective"),
     B("c14-threads-not-reset", ["C14", "C15"], SV, "        else:\n            z3.set_option(\"sat.threads\", 1)\n            z3.set_option(\"smt.threads\", 1)", "        else:\n            pass"),
     # the cache above needs a writer to be a defect: add one
     {"id": "c14-module-cache-written", "kind": "break", "props": ["C14"], "expect": [],
@@ -464,4 +464,23 @@ MUTANTS += [
     T("c08-fn-twin-poly-explicit-last", ["C08"], FN, "result = self.coefficients[-1]", "result = self.coefficients[len(self.coefficients) - 1]"),
     T("c08-fn-twin-poly-renamed", ["C08"], FN, "            v = x\n            for i in range(len(self.coefficients) - 2, -1, -1):\n                if self.coefficients[i] != 0:\n                    result += self.coefficients[i] * v\n                v = v * x\n", "            power = x\n            for j in range(len(self.coefficients) - 2, -1, -1):\n                if 0 != self.coefficients[j]:\n                    result = self.coefficients[j] * power + result\n                power = x * power\n"),
     T("c08-fn-twin-constant-def", ["C08"], FN, "        self.set_function(lambda x: self.value)", "        def _const(x):\n            return self.value\n\n        self.set_function(_const)"),
+]
+
+RC = "resource_constraint.py"
+MUTANTS += [
+    # ---- second wave: rules added after the independent seeded changes --------------
+    B("c12-bound-kept-after-pop", ["C12", "C13"], SV, "            self._solver.pop(num_pushed_scopes)\n\n        print(f\"\\ttotal number of iterations: {num_iter}\")", "            self._solver.pop(num_pushed_scopes)\n        if current_variable_value is not None and kind == \"min\":\n            self.append_z3_assertion(variable >= current_variable_value)\n\n        print(f\"\\ttotal number of iterations: {num_iter}\")"),
+    B("c13-assert-in-solve", ["C12", "C13"], SV, "            # then get the solution\n            model = self._solver.model()\n", "            # then get the solution\n            model = self._solver.model()\n            self._solver.add(self.problem._horizon <= model[self.problem._horizon].as_long())\n"),
+    B("c13-bound-before-push", ["C12", "C13"], SV, "            self._solver.push()\n            num_pushed_scopes += 1\n            if kind == \"min\":\n                self.append_z3_assertion(variable < current_variable_value)", "            if kind == \"min\":\n                self.append_z3_assertion(variable <= current_variable_value)\n            self._solver.push()\n            num_pushed_scopes += 1\n            if kind == \"min\":\n                self.append_z3_assertion(variable < current_variable_value)"),
+    B("c14-overlaps-accumulated-across-tasks", ["C14", "C04"], RC, "            conds = []\n            for task, (start_task_i, end_task_i) in worker._busy_intervals.items():\n                resource_assigned = True\n                overlaps = []\n", "            conds = []\n            overlaps = []\n            for task, (start_task_i, end_task_i) in worker._busy_intervals.items():\n                resource_assigned = True\n"),
+    B("c15-single-objective-not-handed-in-weight-mode", ["C15", "C07"], SV, "            self._objective = list(self.problem.objectives.values())[0]\n            if self.optimizer == \"optimize\":", "            self._objective = list(self.problem.objectives.values())[0]\n            if self.optimizer == \"optimize\" and self.optimize_priority != \"weight\":"),
+    B("c15-weighted-objective-not-handed", ["C15", "C07"], SV, "                if self.optimizer == \"optimize\":\n                    # the z3 Optimize solver has to be told what to optimize\n", "                if self.optimizer == \"optimize\" and False:\n                    # the z3 Optimize solver has to be told what to optimize\n"),
+    B("c15-objective-direction-crossed", ["C15", "C07"], SV, "                if self._objective.kind == \"maximize\":\n                    self._solver.maximize(variable_to_optimize)\n                elif self._objective.kind == \"minimize\":\n                    self._solver.minimize(variable_to_optimize)", "                if self._objective.kind == \"maximize\":\n                    self._solver.minimize(variable_to_optimize)\n                elif self._objective.kind == \"minimize\":\n                    self._solver.maximize(variable_to_optimize)"),
+    T("c15-twin-optimize-flag-hoisted", ["C15", "C07"], SV, "            self._objective = list(self.problem.objectives.values())[0]\n            if self.optimizer == \"optimize\":", "            self._objective = list(self.problem.objectives.values())[0]\n            builtin = self.optimizer == \"optimize\"\n            if builtin:"),
+    B("c18-unassigned-test-on-cumulative-object", ["C18", "C04"], RC, "        super().__init__(**data)\n\n        if isinstance(self.resource, Worker):\n            workers = [self.resource]\n        elif isinstance(self.resource, CumulativeWorker):\n            workers = self.resource._cumulative_workers\n\n        resource_assigned = False\n\n        for interval_lower_bound, interval_upper_bound in self.list_of_time_intervals:", "        super().__init__(**data)\n\n        if not self.resource.get_busy_intervals():\n            raise AssertionError(\"The resource is not assigned to any task.\")\n\n        if isinstance(self.resource, Worker):\n            workers = [self.resource]\n        elif isinstance(self.resource, CumulativeWorker):\n            workers = self.resource._cumulative_workers\n\n        resource_assigned = False\n\n        for interval_lower_bound, interval_upper_bound in self.list_of_time_intervals:"),
+    B("c19-optional-constraints-left-out-of-the-core-listing", ["C19"], SV, "                            conflicting_contraits.append(\n                                self.problem.constraints[constraint_name]\n                            )", "                            if not self.problem.constraints[constraint_name].optional:\n                                conflicting_contraits.append(\n                                    self.problem.constraints[constraint_name]\n                                )"),
+    B("c19-core-listing-truncated", ["C19"], SV, "                    for c in conflicting_contraits:\n                        print(\"\\t -> \", end=\"\")", "                    conflicting_contraits.pop()\n                    for c in conflicting_contraits:\n                        print(\"\\t -> \", end=\"\")"),
+    T("c19-twin-core-listing-deduplicated", ["C19"], SV, "                            conflicting_contraits.append(\n                                self.problem.constraints[constraint_name]\n                            )", "                            found = self.problem.constraints[constraint_name]\n                            if found not in conflicting_contraits:\n                                conflicting_contraits.append(found)"),
+    B("c11-early-out-uses-delay-in", ["C11", "C02"], TK, "self.append_z3_assertion(resource_busy_end == self._end - early_out)", "self.append_z3_assertion(resource_busy_end == self._end - delay_in)"),
+    B("c11-delay-in-subtracted", ["C11", "C02"], TK, "                        resource_busy_start == self._start + delay_in\n", "                        resource_busy_start == self._start - delay_in\n"),
 ]
